@@ -210,6 +210,9 @@ def initProps (kind : String) : List (Key × SProp Nat) :=
   let ln := [(Key.str "length", SProp.data xv false false true), (Key.str "name", SProp.data xv false false true)]
   if kind == "arrow" || kind == "bound" then ln
   else if kind == "class" then ln ++ [(Key.str "prototype", SProp.data xv false false false)]
+  -- an ordinary function: `prototype` (writable, not enumerable, not configurable) is created with the function, right
+  -- after `length` and `name` (the mechanism creates it lazily: theorem `lazyPrototype_refines_up_to_key_position`)
+  else if kind == "func" then ln ++ [(Key.str "prototype", SProp.data xv true false false)]
   -- String exotic object `new String("ab")` (10.4.3) = ordinary object + the virtual index properties (theorem
   -- `stringExotic_*` in Props): indices non-writable, enumerable, non-configurable; `length` frozen
   else if kind == "strobj" then
